@@ -20,6 +20,10 @@
   * `os.Exit(1)` ("file … not found", "Database corrupt - missing file") and Go panics
     (nil `Slice()`, slice bounds in `load`) are the sticky `DB.failed`.
   * uint32 / uint64 fields wrap explicitly (`u32`, `add64`, `sub64`).
+  * `DB.eager` is a GHOST field of the proofs: the real store and the oracle always have `eager = false` (then
+    `ncOf eager = NO_CACHE` and every definition reads as the Go code). With `eager = true` the three places that
+    test NO_CACHE (`freerec`, sync(), `load`) test a bit no 32-bit flag word has instead; Props/C19 relates the real
+    run to that "eager ghost" run (same bytes written, every record kept in memory).
   * Not modelled: the WalkFunction of NewDBExt (always nil here), BR_ABORT, membind wrappers
     (`membind_use_wrapper = false` in the build), `Flush()`, the statistics counters.
 -/
